@@ -62,3 +62,59 @@ pub fn set_case(json: &str) {
     }
     CASE_LEN.store(n, Ordering::Relaxed);
 }
+
+// ------------------------------------------------------------------------------------------------
+// A caller that can never acquire an endpoint mutex (outside the E2 controller, which treats the
+// same situation as "no actor enabled"): the check's thread would hang for ever, so the verdict is
+// written here and the process ends.
+
+static PROP: std::sync::Mutex<String> = std::sync::Mutex::new(String::new());
+static CURRENT_OP: std::sync::Mutex<String> = std::sync::Mutex::new(String::new());
+
+/// The library call the check is about to make (text for the replay artefact).
+pub fn set_op(text: String) {
+    *CURRENT_OP.lock().unwrap() = text;
+}
+
+/// Install the process-wide lock-point callback of the `vhost` crate: under the E2 controller the
+/// acquisition is a scheduling point; elsewhere a mutex that stays unavailable for 6 s (every
+/// check outside E2 calls the endpoints from one thread at a time, so nobody can release it) is a
+/// caller that dead-locked itself.
+pub fn install_lock_hook(prop: &str) {
+    *PROP.lock().unwrap() = prop.to_string();
+    vhost::vhost_user::verif::set_lock_point(Box::new(|site, free| {
+        if crate::sysshim::sched_on() {
+            crate::sysshim::sched_point(crate::sysshim::Point::Lock(site), free);
+            return;
+        }
+        if free() {
+            return;
+        }
+        let start = std::time::Instant::now();
+        while !free() {
+            if start.elapsed() > std::time::Duration::from_secs(6) {
+                never_acquired(site);
+            }
+            std::thread::sleep(std::time::Duration::from_millis(2));
+        }
+    }));
+}
+
+fn never_acquired(site: &str) -> ! {
+    let prop = PROP.lock().unwrap().clone();
+    let op = CURRENT_OP.lock().unwrap().clone();
+    let dir = crate::report::verif_root().join("replays").join(&prop);
+    let _ = std::fs::create_dir_all(&dir);
+    let path = dir.join("blocked.json");
+    let sig = format!("{prop}:call-never-completes:endpoint-mutex:{site}");
+    let what = format!("the calling thread waits for the `{site}` endpoint mutex, which stayed unavailable for 6 s although no other thread uses the endpoint (the caller holds it itself); last library call started by the check: {op}");
+    let body = serde_json::json!({"property": prop, "signature": sig, "what": what, "case": {"check": prop, "last_call": op, "site": site}});
+    let _ = std::fs::write(&path, serde_json::to_string_pretty(&body).unwrap());
+    println!("VIOLATION property={prop} replay={}", path.display());
+    println!("  signature: {sig}");
+    println!("  what: {what}");
+    use std::io::Write;
+    let _ = std::io::stdout().flush();
+    // SAFETY: immediate exit; the blocked thread cannot unwind.
+    unsafe { libc::_exit(1) }
+}
